@@ -68,7 +68,9 @@ def gen_bar(rng, cid, tier):
     kind = rng.choice(["mutex", "mutex", "spin", "spiny"])
     n = rng.choice([1, 2, 2, 3, 3, 3, 4, 4, 5])
     gens = rng.choice([1, 2, 3, 3, 4, 5] if tier == "quick" else [1, 2, 3, 4, 5, 6, 8])
-    lines.append(f"barrier {kind} {n} {gens}")
+    # the barrier action is a multi-step action: act=<k> scheduling points between its begin and its end
+    k = rng.choice([0, 1, 1, 1, 2, 2, 3])
+    lines.append(f"barrier {kind} {n} {gens}" + (f" act={k}" if k or rng.random() < 0.5 else ""))
     runs(rng, tier, lines)
     return lines
 
@@ -77,12 +79,14 @@ EXPLORE = [
     (["sem 0", "thread w2/0", "thread w1/0", "thread s"], 600, 12000),            # the D7 shape
     (["sem 0", "thread w1/1", "thread w1/0", "thread s s"], 400, 12000),
     (["sem 1", "thread w2/0 s", "thread a1/0 s2", "thread w1/0"], 0, 12000),
-    (["barrier mutex 2 2"], 400, 12000),
-    (["barrier mutex 3 2"], 400, 12000),
-    (["barrier spin 2 2"], 400, 12000),
-    (["barrier spiny 2 2"], 400, 12000),
-    (["barrier spin 3 1"], 0, 12000),
-    (["barrier mutex 2 4"], 0, 12000),
+    (["barrier mutex 2 2 act=1"], 400, 12000),
+    (["barrier mutex 3 2"], 300, 12000),
+    (["barrier spin 2 2 act=1"], 400, 12000),
+    (["barrier spiny 2 2 act=1"], 400, 12000),
+    (["barrier spin 3 1 act=2"], 0, 12000),
+    (["barrier spiny 3 1 act=1"], 0, 12000),
+    (["barrier mutex 2 4 act=1"], 0, 12000),
+    (["barrier mutex 3 2 act=2"], 0, 12000),
 ]
 
 
@@ -177,7 +181,7 @@ class C11(flow.Spec):
                 return tuple(case)
             return None
         p = case[1].split()
-        if p[0] == "barrier" and len(p) == 4 and int(p[2]) >= 2 and int(p[3]) >= 2:
+        if p[0] == "barrier" and len(p) == 5 and p[4] != "act=0" and int(p[2]) >= 2 and int(p[3]) >= 2:
             return tuple(case)
         return None
 
